@@ -220,6 +220,15 @@ class C01(Check):
                     if v and not v.endswith('\\') and '{{' not in v and not (v.count('{') and v.count('}')) \
                             and '\t' not in v[-1:]:
                         break
+                r = rng.random()
+                if r < 0.25:
+                    # a value enclosed in a pair of delimiters (FITS-style 'APO', (a b), [x], <y>, `z`): the text is the value
+                    inner = ''.join(c for c in v if c not in "'`()[]<>{}") or 'r'
+                    a, b = rng.choice(["''", "''", '()', '[]', '<>', '``'])
+                    v = a + inner.strip() + b
+                elif r < 0.35:
+                    # text that reads like a number in another spelling: it stays that text
+                    v = rng.choice(['007', '+5', '1e5', '1.0', '1.', '.5', '0x1F', '1_000', '-0', '1d3', 'nan', 'inf', 'True', 'None'])
             hdr.append([k, v, vt])
         return {'kind': cls, 'tables': tables, 'enums': enums, 'hdr': hdr,
                 'byteorder': '>' if cls == 'byteorder' else '=',
